@@ -150,7 +150,9 @@ def unpack (O : Oracle) (cx : Cx) (fx : Fx) : Ty → V → R V
       | _ => unpack O cx fx t v
   | .union ts, v =>
       -- exact-type tests and ordered tries, in declaration order
-      if cx.fixK2 && ts.any (fun t => t.isScalar && t.scalarCls == classOf v) then .ok v else
+      -- (a None input of a union with a None member returns at once: fix F46; any other exact scalar
+      --  match comes first only in the reference mode fixK2)
+      if (cx.fixK2 || isNone v) && ts.any (fun t => t.isScalar && t.scalarCls == classOf v) then .ok v else
       match unionWalk O cx fx ts v with
       | some r => .ok r
       | none =>
@@ -189,6 +191,11 @@ def unpack (O : Oracle) (cx : Cx) (fx : Fx) : Ty → V → R V
       if defs.isEmpty then do
         let r ← unpackNT O cx fx fs v 0 asD
         pure (.ntuple cls r)
+      else if asD then do
+        -- dict form (since fix F45): a missing key selects the default of THAT member; NT(**fields)
+        -- raises TypeError when a member without default has no key
+        let r ← unpackNTk O cx fx fs (fs.length - defs.length) defs v
+        if r.all Option.isSome then pure (.ntuple cls (r.filterMap id)) else raisePy .typeError
       else do
         let r ← unpackNTd O cx fx fs v 0 asD
         -- NT(*fields): missing trailing fields take their defaults, too few → TypeError
@@ -228,6 +235,24 @@ def unpackNT (O : Oracle) (cx : Cx) (fx : Fx) : List (String × Ty) → V → In
       let a ← unpack O cx fx t x
       let r ← unpackNT O cx fx fs v (i + 1) asD
       pure (a :: r)
+
+/-- named tuple with defaults, dict form: `nreq` members without default are still ahead, then the
+    members pair up with `defs`; `none` = no key and no default -/
+def unpackNTk (O : Oracle) (cx : Cx) (fx : Fx) : List (String × Ty) → Nat → List V → V → R (List (Option V))
+  | [], _, _, _ => .ok []
+  | (n, t) :: fs, nreq, defs, v =>
+      let dflt : Option V := if nreq = 0 then defs.head? else none
+      let defs' := if nreq = 0 then defs.tail else defs
+      match (if t.constUnpack then pure V.none else pyGetItemStr v n) with
+      | .error e =>
+          if e.isKind .keyError then do
+            let r ← unpackNTk O cx fx fs (nreq - 1) defs' v
+            pure (dflt :: r)
+          else .error e
+      | .ok x => do
+          let a ← unpack O cx fx t x
+          let r ← unpackNTk O cx fx fs (nreq - 1) defs' v
+          pure (some a :: r)
 
 /-- named tuple with defaults: `try: fields.append(...) … except IndexError: pass` -/
 def unpackNTd (O : Oracle) (cx : Cx) (fx : Fx) : List (String × Ty) → V → Int → Bool → R (List V)
